@@ -42,10 +42,10 @@ Section WithH.
           /\ decided w kr rmac now multi owner rd (r_pos st) (r_ctx st) (r_ctx st')).
   Proof.
     intros until st'. intros E. unfold get_rr in E.
-    dbind E as np Qn. dbind E as tp Qt. dbind E as cp Qc. dbind E as lp Ql. dbind E as dp Qd.
+    dbind E as np Qn. dbind E as nrel Qr. dbind E as tp Qt. dbind E as cp Qc. dbind E as lp Ql. dbind E as dp Qd.
     destruct (fst tp =? OPT) eqn:EO.
     { left. apply Z.eqb_eq in EO.
-      destruct (negb (section =? 3) || r_opt st || negb (NameM.name_eqb (fst np) NameM.root)); [discriminate|].
+      destruct (negb (section =? 3) || r_opt st || negb (NameM.name_eqb nrel NameM.root)); [discriminate|].
       destruct (Nat.ltb _ _); [discriminate|].
       dbind E as u Qo.
       inversion E; subst st'; clear E. cbn [r_recs r_tsig r_ctx].
@@ -72,10 +72,36 @@ Section WithH.
       exists (fst tp), (fst cp). apply Z.eqb_neq in ET. auto.
   Qed.
 
+  (* the origin is a constant of the read *)
+  Lemma get_rr_origin : forall w kr rmac now multi section count i st st',
+    get_rr H w kr rmac now multi section count i st = Ok st' -> r_origin st' = r_origin st.
+  Proof.
+    intros until st'. intros E. unfold get_rr in E.
+    dbind E as np Qn. dbind E as nrel Qr. dbind E as tp Qt. dbind E as cp Qc. dbind E as lp Ql. dbind E as dp Qd.
+    destruct (fst tp =? OPT).
+    { destruct (negb (section =? 3) || r_opt st || negb (NameM.name_eqb nrel NameM.root)); [discriminate|].
+      destruct (Nat.ltb _ _); [discriminate|]. dbind E as u Qo. inversion E. reflexivity. }
+    destruct (fst tp =? TSIG).
+    - destruct (negb (section =? 3) || negb (fst cp =? ANY) || negb (i =? count - 1)); [discriminate|].
+      destruct (Nat.ltb _ _); [discriminate|]. dbind E as t Qrd.
+      destruct (negb (fst lp =? 0)); [discriminate|].
+      dbind E as o Qk. dbind E as cx Qv. inversion E. reflexivity.
+    - destruct (Nat.ltb _ _); [discriminate|]. inversion E. reflexivity.
+  Qed.
+
+  Lemma get_section_origin : forall rem w kr rmac now multi section count st st',
+    get_section H w kr rmac now multi section count rem st = Ok st' -> r_origin st' = r_origin st.
+  Proof.
+    induction rem; intros until st'; intros E; cbn [get_section] in E.
+    - inversion E. reflexivity.
+    - dbind E as st1 Q. apply get_rr_origin in Q. apply IHrem in E. congruence.
+  Qed.
+
   (* a TSIG header anywhere but at the very end of ADDITIONAL with class ANY: BadTSIG, before
      anything of the record's rdata is looked at *)
-  Lemma get_rr_misplaced : forall w kr rmac now multi section count i st np tp cp lp dp,
+  Lemma get_rr_misplaced : forall w kr rmac now multi section count i st np nrel tp cp lp dp,
     get_name w (length w) (r_pos st) = Ok np ->
+    (match r_origin st with Some o => NameM.relativize (fst np) o | None => Ok (fst np) end) = Ok nrel ->
     get_uint w (length w) (snd np) 2 = Ok tp ->
     get_uint w (length w) (snd tp) 2 = Ok cp ->
     get_uint w (length w) (snd cp) 4 = Ok lp ->
@@ -84,8 +110,8 @@ Section WithH.
     (section <> 3 \/ fst cp <> ANY \/ i <> count - 1) ->
     get_rr H w kr rmac now multi section count i st = Lib eBadTSIG.
   Proof.
-    intros until dp. intros N T C L D Ty Mis. unfold get_rr.
-    rewrite N. cbn [bind]. rewrite T. cbn [bind]. rewrite C. cbn [bind].
+    intros until dp. intros N R T C L D Ty Mis. unfold get_rr.
+    rewrite N. cbn [bind]. rewrite R. cbn [bind]. rewrite T. cbn [bind]. rewrite C. cbn [bind].
     rewrite L. cbn [bind]. rewrite D. cbn [bind].
     rewrite Ty. change (TSIG =? OPT) with false. change (TSIG =? TSIG) with true. cbn iota.
     destruct (section =? 3) eqn:S3; cbn [negb orb]; [|reflexivity].
@@ -94,8 +120,9 @@ Section WithH.
     apply Z.eqb_eq in S3, CA, IL. destruct Mis as [M|[M|M]]; contradiction.
   Qed.
 
-  Lemma get_rr_misplaced_formerror : forall w kr rmac now multi section count i st np tp cp lp dp,
+  Lemma get_rr_misplaced_formerror : forall w kr rmac now multi section count i st np nrel tp cp lp dp,
     get_name w (length w) (r_pos st) = Ok np ->
+    (match r_origin st with Some o => NameM.relativize (fst np) o | None => Ok (fst np) end) = Ok nrel ->
     get_uint w (length w) (snd np) 2 = Ok tp ->
     get_uint w (length w) (snd tp) 2 = Ok cp ->
     get_uint w (length w) (snd cp) 4 = Ok lp ->
@@ -141,8 +168,8 @@ Section WithH.
     end.
 
   (* everything the property says about a message that was read without error *)
-  Lemma read_ok : forall w kr rmac ctx multi now m,
-    read H w kr rmac ctx multi now = Ok m ->
+  Lemma read_ok : forall origin w kr rmac ctx multi now m,
+    read_gen H origin w kr rmac ctx multi now = Ok m ->
     exists body,
       Forall not_tsig body /\
       ((m_recs m = body /\ m_tsig m = None /\ m_had_tsig m = false
@@ -152,7 +179,7 @@ Section WithH.
              /\ m_tsig m = Some (owner, rd) /\ m_had_tsig m = true
              /\ decided w kr rmac now multi owner rd start ctx (m_ctx m))).
   Proof.
-    intros until m. intros E. unfold read in E.
+    intros until m. intros E. unfold read_gen in E.
     destruct (Nat.ltb (length w) 12); [discriminate|].
     dbind E as fl Q0. dbind E as qd Q1. dbind E as an Q2. dbind E as au Q3. dbind E as ad Q4.
     destruct (_ =? 5); [discriminate|].
@@ -185,8 +212,8 @@ Section WithH.
   Qed.
 
   (* in a successfully read message a TSIG record is the last record, in ADDITIONAL, class ANY *)
-  Lemma tsig_only_last : forall w kr rmac ctx multi now m i r,
-    read H w kr rmac ctx multi now = Ok m ->
+  Lemma tsig_only_last : forall origin w kr rmac ctx multi now m i r,
+    read_gen H origin w kr rmac ctx multi now = Ok m ->
     nth_error (m_recs m) i = Some r -> rec_type r = TSIG ->
     i = (length (m_recs m) - 1)%nat /\ rec_section r = 3 /\ rec_class r = ANY.
   Proof.
